@@ -24,7 +24,7 @@ func pathPool(r *sim.Rand, profile string, n int) []string {
 		}
 		return string(b)
 	}
-	fixedLen := []int{4, 8, 8, 16, 64}[r.Intn(5)]
+	fixedLen := []int{4, 8, 8, 16, 64, 64, 100, 256}[r.Intn(8)] // the property allows paths of any length
 	if profile == "dense" {
 		fixedLen = []int{4, 6, 6, 8}[r.Intn(4)]
 	}
@@ -339,6 +339,12 @@ func GenRounds(prop string, r *sim.Rand, tier string) sim.Script {
 		nPool = 60 + r.Intn(60)
 		maxTxn, maxOps = 6, 8
 	}
+	bigRound := -1
+	if r.Chance(1, 120) { // one round that changes hundreds of nodes (batch thresholds)
+		bigRound = r.Intn(nRounds)
+		nPool = 200 + r.Intn(300)
+		profile = []string{"fixed", "mixed"}[r.Intn(2)]
+	}
 	pool := pathPool(r, profile, nPool)
 	valProfile := []string{"small", "small", "plain"}[r.Intn(3)]
 	n := 0
@@ -357,6 +363,17 @@ func GenRounds(prop string, r *sim.Rand, tier string) sim.Script {
 		}
 		s.Ops = append(s.Ops, Op{K: "round", N: gap})
 		kidx := 0
+		if rd == bigRound {
+			for t := 0; t < 4; t++ {
+				s.Ops = append(s.Ops, Op{K: "child"})
+				kidx++
+				for k := 0; k < nPool/4; k++ {
+					n++
+					s.Ops = append(s.Ops, Op{K: "ins", T: kidx, P: pool[(t*(nPool/4)+k)%len(pool)], V: genValue(r, "plain", n)})
+				}
+				s.Ops = append(s.Ops, Op{K: "merge", T: kidx})
+			}
+		}
 		for t := r.Intn(maxTxn + 1); t > 0; t-- {
 			if r.Chance(1, 5) {
 				s.Ops = append(s.Ops, mut(0)) // direct block update
